@@ -55,9 +55,10 @@ def rat(value, den, tol=2e-5):
     return {"num": num, "den": int(den), "close": bool(abs(v * den - num) <= tol * max(1.0, abs(v * den)))}
 
 
-def run_case(xs, mold, burn, cells, fill=7.5):
-    """cells: list of dicts {i, v, f, c}.  Returns the record for MStepTrace."""
-    rec = {"xs": list(xs), "mold": int(mold), "burn": bool(burn), "cells": cells}
+def run_case(xs, mold, burn, cells, fill=7.5, scale="unit"):
+    """cells: list of dicts {i, v, f, c}.  Returns the record for MStepTrace.  scale "tiny": the latent values are
+    mold + (x - mold) / 1000 - every dispersion around the pre-step mean is a millionth of the case's."""
+    rec = {"xs": list(xs), "mold": int(mold), "burn": bool(burn), "cells": cells, "scale": scale}
     n_i = max(c["i"] for c in cells)
     n_v = max(c["v"] for c in cells)
     n_f = max(c["f"] for c in cells)
@@ -90,7 +91,7 @@ def run_case(xs, mold, burn, cells, fill=7.5):
             real |= w.any(dim=2)
             st["t"] = WeightedTensor(torch.arange(1.0, n_v + 1).repeat(n_i, 1) + 60.0, real)
         st["model"] = m.clone()
-        st["tau"] = torch.tensor([[float(x)] for x in xs])
+        st["tau"] = torch.tensor([[float(x)] for x in xs]) if scale == "unit" else torch.tensor([[float(mold) + (float(x) - float(mold)) / 1000.0] for x in xs])
         st["tau_mean"] = torch.tensor([float(mold)])
         st["tau_std"] = torch.tensor([1.0])
         st["noise_std"] = torch.ones(noise_dim)
@@ -141,19 +142,24 @@ def run_case(xs, mold, burn, cells, fill=7.5):
     return rec
 
 
-def run_mix_case(xs, ws, mold, burn, W=4):
+def run_mix_case(xs, ws, mold, burn, W=4, far=False):
     """MixStep.tla: the mixture model's own parameter declarations (ModelParameter.for_probs / for_ind_mean_mixture /
     for_ind_std_mixture) evaluated on a state holding the latent values, the pre-step cluster means and cluster
     log-responsibilities log(w / W).  Returns the record for MixStepTrace."""
     n = len(xs)
-    rec = {"xs": list(xs), "ws": list(ws), "mold": list(mold), "burn": bool(burn)}
+    rec = {"xs": list(xs), "ws": list(ws), "mold": list(mold), "burn": bool(burn), "far": bool(far)}
     zero = {"num": 0, "den": 0, "close": False}
     rec.update(status="ok", probs=[zero, zero], mean=[zero, zero], var=[zero, zero], mean_vec=[[zero, zero], [zero, zero]])
     sw = [sum(ws), n * W - sum(ws)]
     try:
         r = torch.tensor([[w / W, (W - w) / W] for w in ws], dtype=torch.float64)
         # the rules read the responsibilities as softmax(-nll_regul_ind_sum_ind) (clamped at -100): give them log r
-        nll = WeightedTensor((-torch.log(r)).float())
+        raw = -torch.log(r)
+        if far:
+            # an individual beyond the floor: regularity above 100 for both clusters, by different amounts (floored to an even split)
+            i_far = next(i for i, w in enumerate(ws) if 2 * w == W)
+            raw[i_far] = torch.tensor([150.0, 180.0], dtype=raw.dtype)
+        nll = WeightedTensor(raw.float())
         x = torch.tensor([[float(v)] for v in xs])
         xv = torch.tensor([[float(v), -float(v)] for v in xs])
         state = {"tau": x, "tau_mean": torch.tensor([float(m) for m in mold]), "tau_std": torch.ones(2), "sources": xv,
